@@ -381,6 +381,47 @@ func main() {
 			}
 		})
 
+		// net/http flavour: the request (possibly with bytes behind it that the client sent
+		// early) is parsed by net/http's buffered reader, which Hijack hands to the upgrader with
+		// whatever it happened to buffer. The same bytes cut into reads differently give the same
+		// outcome, the same response and the same bytes left to read.
+		r.Part("E2d-HTTPUpgrader-read-coalescing", func(t *explore.T) {
+			reqs := []string{
+				"GET /chat HTTP/1.1\r\nHost: example.com\r\nUpgrade: websocket\r\nConnection: Upgrade\r\nSec-WebSocket-Key: " + hs.CanonKey + "\r\nSec-WebSocket-Version: 13\r\n\r\n",
+				"GET /chat HTTP/1.1\r\nHost: example.com\r\nUpgrade: websocket\r\nConnection: Upgrade\r\nSec-WebSocket-Key: " + hs.CanonKey + "\r\nSec-WebSocket-Version: 13\r\nSec-WebSocket-Protocol: a, b\r\nSec-WebSocket-Extensions: permessage-deflate\r\n\r\n",
+				"GET /chat HTTP/1.1\r\nHost: example.com\r\nUpgrade: websocket\r\nConnection: Upgrade\r\nSec-WebSocket-Version: 13\r\n\r\n",
+			}
+			trailers := []string{"", "\x81", "\x81\x85\x01\x02\x03\x04hello", strings.Repeat("z", 5000)}
+			for ri, req := range reqs {
+				for ti, tr := range trailers {
+					ri, ti, req, tr := ri, ti, req, tr
+					t.Do(func() string { return fmt.Sprintf("request #%d followed by %d early byte(s), 6 ways of cutting the stream into reads", ri, len(tr)) }, func() *explore.Fail {
+						data := []byte(req + tr)
+						first := ""
+						for _, chunk := range []int{0, 1, 7, len(req), len(req) + 1, len(req) - 1} {
+							src := env.NewSrc(data)
+							src.Policy = env.FixedChunk(chunk)
+							e := &wsflate.Extension{}
+							u := ws.HTTPUpgrader{Protocol: func(s string) bool { return s == "b" }, Negotiate: e.Negotiate}
+							out, h, err, rest, skipped := hs.RunHTTPUpgraderStream(u, src)
+							obs := fmt.Sprintf("skipped=%v ok=%v proto=%q ext=%s wrote=%q rest=%d bytes", skipped, err == nil, h.Protocol, normExt(h.Extensions), blankAccept(out), len(rest))
+							if err == nil && string(rest) != tr {
+								return explore.Failf("early-bytes-lost-or-changed:HTTPUpgrader", "chunk=%d: %d bytes readable after the handshake, %d were sent", chunk, len(rest), len(tr))
+							}
+							if first == "" {
+								first = obs
+							} else if obs != first {
+								return explore.Failf("outcome-depends-on-read-coalescing:HTTPUpgrader", "all at once: %s\nchunk=%d:     %s", first, chunk, obs)
+							}
+						}
+						_ = ti
+						t.Outcome(first[:24])
+						return nil
+					})
+				}
+			}
+		})
+
 		r.Part("E3-debug-wrappers", func(t *explore.T) {
 			type dcase struct {
 				p        pair
